@@ -36,7 +36,8 @@ fn main() {
     let budget_ms: u64 = std::env::args().nth(1).and_then(|s| s.parse().ok()).unwrap_or(20000);
     // watchdog: a job that runs longer than the budget is reported and the process exits; the
     // harness restarts after that job.  (A wall-clock expiry is never a verdict by itself.)
-    std::thread::spawn(move || loop {
+    // (Miri insists on every thread being joined and interprets far too slowly for a wall-clock budget)
+    if !cfg!(miri) { std::thread::spawn(move || loop {
         std::thread::sleep(std::time::Duration::from_millis(200));
         let st = JOB_STARTED_MS.load(Ordering::SeqCst);
         if st != 0 && now_ms() > st + budget_ms {
@@ -47,7 +48,7 @@ fn main() {
             let _ = o.flush();
             std::process::exit(9);
         }
-    });
+    }); }
     let worker = std::thread::Builder::new().stack_size(1 << 30).spawn(|| {
         let stdin = std::io::stdin();
         let out = std::io::stdout();
